@@ -18,6 +18,9 @@ code points above U+00FF as they are (and treats those above U+024F as non-alpha
 found by review 2: on `s("ā").s(b).s("Ω").s(z)` with `--an` the binary prints the order `ā b Ω z`,
 the model `Ω b z ā`. So the agreement of `--an` between model and binary is limited to labels within
 Latin-1 - in the correspondence runs: to the harness's label pool, which is ASCII.
+A second limit (third review): the crate accumulates digit runs in a wrapping `u64`, the model in `Nat`; labels with
+a run of 20 or more digits can be ordered differently by the release binary (observed: `18446744073709551616` before
+`10000000000000000000`).
 
 (The theorems of this file are about the MODEL's comparison and hold for all labels; only the
 agreement with the binary is limited as said.) Proof file: not imported by the driver. -/
